@@ -209,7 +209,7 @@ def raise_errors(*args):
 
 
 def _to_number(number):
-    if isinstance(number, (bool, np.bool_)) and number:
+    if isinstance(number, (bool, np.bool_)):
         return np.nan
     try:
         return float(number)
